@@ -1,90 +1,143 @@
 ------------------------------------------------ MODULE Install ------------------------------------------------
 (* The installation algorithm of internal/llmsetup/install.go as a state machine (implementation-shaped), with   *)
-(* a Crash enabled between any two file-system steps and a single injected step failure.  Per file:              *)
-(*   mkdir -> create temp (0600, in the target directory) -> write (possibly in two parts) -> sync -> close ->    *)
-(*   chmod 0644 -> rename over the destination;   on a failed step: close if open, remove the temp file, stop.    *)
-(* After a crash the installer is run again, without faults.  TLC explores every crash point x every single        *)
-(* failing step x prior states {absent, old} of every destination and checks the requirements of InstallFS:        *)
+(* a Crash enabled between any two file-system steps and injected step failures.  Per file (InstallFile):         *)
+(*   MkdirAll -> CreateTemp (0600, random name, in the target directory) -> Write (in one or several parts) ->     *)
+(*   Sync -> Close -> Chmod 0644 -> Rename over the destination;                                                   *)
+(*   on a failed step: the deferred function closes the temp file if open and removes it; the walk stops.          *)
+(* Files are installed one after the other in an order the model leaves open (the code walks an embedded tree).   *)
+(* After a crash the installer is run again.  Temp files orphaned by a crash stay (random names: they are never    *)
+(* in the way of a later run) and are counted.                                                                     *)
+(* Requirements (those of InstallFS.tla, on the abstract state):                                                   *)
 (*   DestAtomic (in every state), FailClean (at an error exit), RerunCompletes (a later run completes).            *)
+(* Bound to the code by InstallTrace.tla: every recorded run of the real installer (normal, faulted, killed,      *)
+(* rerun) must be a behaviour of this module.                                                                      *)
 EXTENDS Naturals, Sequences, FiniteSets, TLC
 
-CONSTANTS Files        \* sequence of file ids, installed in this order
+CONSTANTS Files,       \* set of file ids
+          Priors       \* the states a destination may be in before the first run: set of [content, mode]
 
-Steps == <<"mkdir", "create", "write1", "write2", "sync", "close", "chmod", "rename">>
+None == "-"
+Steps == <<"mkdir", "create", "write", "sync", "close", "chmod", "rename">>
 
-VARIABLES dest,      \* file -> [content \in {"absent","old","new"}, mode]
+VARIABLES dest,      \* file -> [content \in {"absent","old","new","torn"}, mode]
           prior,     \* file -> the same, before the first run
-          tmp,       \* file -> [state \in {"none","empty","partial","full"}, mode, open]
-          cur,       \* index into Files of the file being installed
+          tmp,       \* file -> [state \in {"none","empty","partial","full"}, mode, open]  (the temp file of this run)
+          todo,      \* files still to be installed by this run
+          cur,       \* the file being installed, or None
           step,      \* index into Steps
           status,    \* "running" | "cleanup" | "failed" | "crashed" | "ok"
-          faulted,   \* a step has been made to fail (at most one per behaviour)
+          faults,    \* number of steps made to fail so far
+          orphans,   \* temp files left behind by crashed runs
           run        \* 1, or 2 after a crash
 
-vars == <<dest, prior, tmp, cur, step, status, faulted, run>>
+vars == <<dest, prior, tmp, todo, cur, step, status, faults, orphans, run>>
 
-F == Files[cur]
 NoTmp == [state |-> "none", mode |-> "", open |-> FALSE]
+Absent == [content |-> "absent", mode |-> ""]
+New == [content |-> "new", mode |-> "0644"]
 
 Init ==
-  /\ prior \in [{Files[i] : i \in DOMAIN Files} -> {[content |-> "absent", mode |-> ""], [content |-> "old", mode |-> "0644"]}]
+  /\ prior \in [Files -> Priors]
   /\ dest = prior
-  /\ tmp = [f \in {Files[i] : i \in DOMAIN Files} |-> NoTmp]
-  /\ cur = 1 /\ step = 1 /\ status = "running" /\ faulted = FALSE /\ run = 1
+  /\ tmp = [f \in Files |-> NoTmp]
+  /\ todo = Files /\ cur = None /\ step = 1 /\ status = "running" /\ faults = 0 /\ orphans = 0 /\ run = 1
 
-Advance ==
-  IF step < Len(Steps) THEN step' = step + 1 /\ UNCHANGED cur /\ UNCHANGED status
-  ELSE IF cur < Len(Files) THEN cur' = cur + 1 /\ step' = 1 /\ UNCHANGED status
-  ELSE status' = "ok" /\ UNCHANGED <<cur, step>>
+(* MkdirAll of the target directory of the next file; which file comes next is left open *)
+Mkdir(f) ==
+  /\ status = "running" /\ cur = None /\ f \in todo
+  /\ cur' = f /\ step' = 2
+  /\ UNCHANGED <<dest, prior, tmp, todo, status, faults, orphans, run>>
 
-(* the effect of one successful step on the file system *)
-Effect(s) ==
-  CASE s = "mkdir"  -> UNCHANGED <<dest, tmp>>
-    [] s = "create" -> tmp' = [tmp EXCEPT ![F] = [state |-> "empty", mode |-> "0600", open |-> TRUE]] /\ UNCHANGED dest
-    [] s = "write1" -> tmp' = [tmp EXCEPT ![F].state = "partial"] /\ UNCHANGED dest
-    [] s = "write2" -> tmp' = [tmp EXCEPT ![F].state = "full"] /\ UNCHANGED dest
-    [] s = "sync"   -> UNCHANGED <<dest, tmp>>
-    [] s = "close"  -> tmp' = [tmp EXCEPT ![F].open = FALSE] /\ UNCHANGED dest
-    [] s = "chmod"  -> tmp' = [tmp EXCEPT ![F].mode = "0644"] /\ UNCHANGED dest
-    [] s = "rename" -> /\ dest' = [dest EXCEPT ![F] = [content |-> IF tmp[F].state = "full" THEN "new" ELSE "torn", mode |-> tmp[F].mode]]
-                       /\ tmp' = [tmp EXCEPT ![F] = NoTmp]
+Create ==
+  /\ status = "running" /\ cur # None /\ Steps[step] = "create"
+  /\ tmp' = [tmp EXCEPT ![cur] = [state |-> "empty", mode |-> "0600", open |-> TRUE]]
+  /\ step' = step + 1
+  /\ UNCHANGED <<dest, prior, todo, cur, status, faults, orphans, run>>
 
-StepOK ==
-  /\ status = "running"
-  /\ Effect(Steps[step])
-  /\ Advance
-  /\ UNCHANGED <<prior, faulted, run>>
+(* a write that does not complete the content (the kernel may accept fewer bytes; the Go runtime retries) *)
+WritePart ==
+  /\ status = "running" /\ cur # None /\ Steps[step] = "write"
+  /\ tmp' = [tmp EXCEPT ![cur].state = "partial"]
+  /\ UNCHANGED <<dest, prior, todo, cur, step, status, faults, orphans, run>>
 
-(* one step fails (only in the first run): the deferred cleanup runs *)
+WriteRest ==
+  /\ status = "running" /\ cur # None /\ Steps[step] = "write"
+  /\ tmp' = [tmp EXCEPT ![cur].state = "full"]
+  /\ step' = step + 1
+  /\ UNCHANGED <<dest, prior, todo, cur, status, faults, orphans, run>>
+
+Sync ==
+  /\ status = "running" /\ cur # None /\ Steps[step] = "sync"
+  /\ step' = step + 1
+  /\ UNCHANGED <<dest, prior, tmp, todo, cur, status, faults, orphans, run>>
+
+Close ==
+  /\ status = "running" /\ cur # None /\ Steps[step] = "close"
+  /\ tmp' = [tmp EXCEPT ![cur].open = FALSE]
+  /\ step' = step + 1
+  /\ UNCHANGED <<dest, prior, todo, cur, status, faults, orphans, run>>
+
+Chmod(m) ==
+  /\ status = "running" /\ cur # None /\ Steps[step] = "chmod"
+  /\ tmp' = [tmp EXCEPT ![cur].mode = m]
+  /\ step' = step + 1
+  /\ UNCHANGED <<dest, prior, todo, cur, status, faults, orphans, run>>
+
+Rename ==
+  /\ status = "running" /\ cur # None /\ Steps[step] = "rename"
+  /\ dest' = [dest EXCEPT ![cur] = [content |-> IF tmp[cur].state = "full" THEN "new" ELSE "torn", mode |-> tmp[cur].mode]]
+  /\ tmp' = [tmp EXCEPT ![cur] = NoTmp]
+  /\ todo' = todo \ {cur}
+  /\ cur' = None /\ step' = 1
+  /\ status' = IF todo \ {cur} = {} THEN "ok" ELSE "running"
+  /\ UNCHANGED <<prior, faults, orphans, run>>
+
+(* the step about to be taken fails (for "mkdir": MkdirAll of the next file, whichever it is): the deferred      *)
+(* cleanup runs if a temp file exists, otherwise the run ends with the error at once                              *)
 StepFail ==
-  /\ status = "running" /\ run = 1 /\ ~faulted
-  /\ faulted' = TRUE
-  /\ status' = "cleanup"
-  /\ UNCHANGED <<dest, prior, tmp, cur, step, run>>
+  /\ status = "running"
+  /\ faults' = faults + 1
+  /\ status' = IF cur # None /\ tmp[cur].state # "none" THEN "cleanup" ELSE "failed"
+  /\ UNCHANGED <<dest, prior, tmp, todo, cur, step, orphans, run>>
+
+(* ResolvePath / ValidatePath refuse the base path (e.g. it is a regular file) before anything is touched *)
+Refuse ==
+  /\ status = "running" /\ cur = None /\ todo = Files
+  /\ status' = "failed"
+  /\ UNCHANGED <<dest, prior, tmp, todo, cur, step, faults, orphans, run>>
 
 Cleanup ==
   /\ status = "cleanup"
-  /\ tmp' = [tmp EXCEPT ![F] = NoTmp]       \* close if open, remove the temp file
+  /\ tmp' = [tmp EXCEPT ![cur] = NoTmp]       \* close if open, remove the temp file
   /\ status' = "failed"
-  /\ UNCHANGED <<dest, prior, cur, step, faulted, run>>
+  /\ UNCHANGED <<dest, prior, todo, cur, step, faults, orphans, run>>
 
 Crash ==
-  /\ status \in {"running", "cleanup"} /\ run = 1
+  /\ status \in {"running", "cleanup"}
   /\ status' = "crashed"
-  /\ tmp' = [f \in DOMAIN tmp |-> [tmp[f] EXCEPT !.open = FALSE]]
-  /\ UNCHANGED <<dest, prior, cur, step, faulted, run>>
+  /\ orphans' = orphans + Cardinality({f \in Files : tmp[f].state # "none"})
+  /\ tmp' = [f \in Files |-> NoTmp]
+  /\ UNCHANGED <<dest, prior, todo, cur, step, faults, run>>
 
 Rerun ==
-  /\ status = "crashed"
-  /\ run' = 2 /\ cur' = 1 /\ step' = 1 /\ status' = "running"
-  /\ UNCHANGED <<dest, prior, tmp, faulted>>
+  /\ status \in {"crashed", "failed"}
+  /\ run' = run + 1 /\ todo' = Files /\ cur' = None /\ step' = 1 /\ status' = "running"
+  /\ UNCHANGED <<dest, prior, tmp, faults, orphans>>
 
-Next == StepOK \/ StepFail \/ Cleanup \/ Crash \/ Rerun
+(* exploration budget of the design model: one injected failure, in the first run; one crash; one rerun after it *)
+Budget == run = 1 /\ faults = 0
+
+Next ==
+  \/ \E f \in Files : Mkdir(f)
+  \/ Create \/ WritePart \/ WriteRest \/ Sync \/ Close \/ Chmod("0644") \/ Rename
+  \/ (Budget /\ StepFail)
+  \/ Cleanup \/ Refuse
+  \/ (run = 1 /\ Crash)
+  \/ (status = "crashed" /\ Rerun)
 Spec == Init /\ [][Next]_vars
 
-DestOK(f) == \/ dest[f] = prior[f]
-             \/ dest[f] = [content |-> "new", mode |-> "0644"]
-DestAtomic == \A f \in DOMAIN dest : DestOK(f)
-FailClean == status = "failed" => (\A f \in DOMAIN tmp : tmp[f].state = "none") /\ DestAtomic
-RerunCompletes == (status = "ok") => \A f \in DOMAIN dest : dest[f] = [content |-> "new", mode |-> "0644"]
+DestOK(f) == dest[f] = prior[f] \/ dest[f] = New
+DestAtomic == \A f \in Files : DestOK(f)
+FailClean == status = "failed" => (\A f \in Files : tmp[f].state = "none") /\ DestAtomic
+RerunCompletes == (status = "ok") => \A f \in Files : dest[f] = New
 =============================================================================================================
